@@ -111,7 +111,7 @@ func sigOf(o *runOut, class string) string {
 	}
 	if fj != nil {
 		parts = append(parts, "kind="+fj.Kind, "sink="+fj.Sink, "fault="+fj.Fault.Kind)
-		if fj.Kind == "eval" || fj.Kind == "load" {
+		if fj.Kind == "eval" || fj.Kind == "load" || strings.HasPrefix(fj.Model, "cat") {
 			parts = append(parts, "model="+fj.Model)
 		}
 	}
